@@ -69,6 +69,8 @@ type exec struct {
 	bc bcfg
 	ts timerSet
 
+	ruleMismatch string // attempt gaps that satisfy the property but not the documented growth rule
+
 	mu         sync.Mutex
 	attempts   []attempt
 	refuseLeft int // the next refuseLeft attempts are refused / fail to listen
